@@ -12,8 +12,8 @@ Every change of the object graph made by these methods goes through a public str
 (`Section(...)`-like allocation of the copy, `obj.append(child)`, `self.remove(obj)`, `new_id()`),
 and so does the model: the heap component is only ever changed by `Heap.step` (see `X.prim`), in
 Python statement order, so that the state returned together with a raise is the state at the
-raise point (e.g. the KeyError of `append` in the middle of a merge, known finding
-C13/section-name-clash-other-type).
+raise point (e.g. a KeyError of `append` in the middle of a merge; the one of finding
+C13/section-name-clash-other-type is now refused up front by `_merge_name_check`, `nameCheck`).
 
 What the tree structure does not determine is *abstract*: an `Oracle` gives, for the objects that
 exist before the operation, the Section types (`contains` compares name *and* type), whether the
@@ -170,6 +170,17 @@ def mergeCheck (O : Oracle) : Nat → X → Nat → Nat → Option Bool
           | none => some true) (s.h.node src).props
       | r => r
 
+/-- `dest._merge_name_check(src)` (no side effects): `some true` = passes. A child Section of
+    the source that `contains` does not find would be added as a copy; if its name is already used
+    in the destination (by a Section of another type) the check raises ValueError. -/
+def nameCheck (O : Oracle) : Nat → X → Nat → Nat → Option Bool
+  | 0, _, _, _ => none
+  | fuel + 1, s, dest, src =>
+    checkAll (fun obj =>
+      match containsS O s dest obj with
+      | some mine => nameCheck O fuel s mine obj
+      | none => some (!nameIn s.h (s.h.node dest).secs (s.h.node obj).name)) (s.h.node src).secs
+
 /-! ### merge -/
 
 /-- `for obj in lst: body` over a list that is re-read before every step (Python's list iterator
@@ -214,6 +225,11 @@ def mergeAux (O : Oracle) : Nat → X → Nat → Nat → X × XOut
     | none => (s, .fuel)
     | some false => (s, .raised .valueError)
     | some true =>
+      -- `self._merge_name_check(section)`: still nothing changed when it raises
+      match nameCheck O fuel s dest src with
+      | none => (s, .fuel)
+      | some false => (s, .raised .valueError)
+      | some true =>
       -- (definition / reference are taken over here: no structure)
       match liveLoop (fun t => (t.h.node src).secs)
           (mergeSecBody O fuel (mergeAux O fuel) dest) fuel 0 s with
